@@ -99,6 +99,33 @@ def main():
             ratios[cls.__name__] = max(ratios.get(cls.__name__, 0.0), r)
             if r > K:
                 fail("global-error-exceeds-K*tol", method=cls.__name__, tol=tol, problem="bernoulli", ratio=r)
+    # Richardson wrappers (explicit, implicit and symplectic bases), both directions: the run returns (a watchdog turns a hang into a
+    # failure) and meets its tolerance on the harmonic oscillator
+    import signal
+
+    def on_alarm(signum, frame):
+        raise TimeoutError("integration did not return within the watchdog time")
+    signal.signal(signal.SIGALRM, on_alarm)
+    bases = [I.RK4Solver, I.SymplecticEulerSolver, I.ABAs5o6HSolver] + ([I.ImplicitMidpoint, I.RK45CKSolver] if req["tier"] != "quick" else [])
+    for base in bases:
+        for levels in ((4,) if req["tier"] == "quick" else (2, 3, 4, 5)):
+            for span in ((0.0, 2.0), (0.0, -2.0)):
+                R = I.generate_richardson_integrator(base, levels)
+                a = de.OdeSystem(lambda t, y: np.stack([y[1], -y[0]]), y0=np.array([0.0, 1.0]), t=span, dt=0.05, rtol=1e-6, atol=1e-6)
+                a.method = R
+                cases += 1
+                signal.alarm(60)
+                try:
+                    a.integrate()
+                    signal.alarm(0)
+                except BaseException as e:
+                    signal.alarm(0)
+                    hung = isinstance(e, TimeoutError) or isinstance(getattr(e, "__cause__", None), TimeoutError)
+                    fail("richardson-run-hangs" if hung else "raises", method="Richardson(%s,%d)" % (base.__name__, levels), span=span, cause=repr(getattr(e, "__cause__", e))[:90])
+                    continue
+                err = float(np.max(np.abs(np.asarray(a.y[-1]) - np.array([np.sin(span[1]), np.cos(span[1])]))))
+                if abs(float(a.t[-1]) - span[1]) > 1e-12 or err > K * 1e-6 * 4:
+                    fail("richardson-run-inaccurate", method="Richardson(%s,%d)" % (base.__name__, levels), span=span, err=err, t_end=float(a.t[-1]))
     print(json.dumps(dict(cases=cases, failures=failures, worst_ratio_per_method=ratios, K=K, methods=names,
                           bound="%d embedded pairs x 3 linear systems with exact exponentials x %d tolerances x 3 spans (both directions) x initial dt from 1e-4 to 5 + Bernoulli problem; accepted if error <= %g*(atol+rtol|y|)*amplification" % (len(names), len(tols), K))))
 
